@@ -134,7 +134,7 @@ def run_case(case, res, verbose=False):
         if case.get('entry') == 'slice1':
             return  # the slice interface may refuse what the element interface accepts; only wrong results count for this entry
         in_pattern = any(isinstance(O.get_path(ptree, path[:k]), ast.pattern) for k in range(len(path)))
-        own_pars_only = csrc.startswith('(') and '\n' in csrc  # a child that cannot be written without its parentheses
+        own_pars_only = (csrc.startswith('(') and '\n' in csrc) or (in_pattern and '(' in csrc and not csrc.endswith(')'))  # a child that cannot be written without its parentheses / a dotted name with grouping parentheses inside (no such thing in a pattern)
         if exp_status == 'ok' and not isinstance(exc, NotImplementedError) and form in ('src', 'ast', 'fst') and \
                 not (in_pattern and own_pars_only):  # expressions inside patterns cannot be parenthesized: refusing is right
             res.fail(cid, 'refused-valid-request:' + exc.__class__.__name__,
